@@ -151,10 +151,16 @@ def judge_table(spec: Spec, pl: dict) -> tuple[list, dict]:
 
 
 def _sutton(g, n2, h2s, co2, dry, *others):
+    """The composition is described first, then another gas is described (and kept), then the first one is evaluated: a
+    composition is a value of its own, whatever else has been described in the meantime."""
     P = drv.prims()
     with warnings.catch_warnings():
         warnings.simplefilter("ignore")
-        return P["pseudocritical_point_Sutton"](g, P["make_nonhydrocarbon_properties"](n2, h2s, co2, *others), dry)
+        comp = P["make_nonhydrocarbon_properties"](n2, h2s, co2, *others)
+        other = P["make_nonhydrocarbon_properties"](0.11 - n2, 0.07 - h2s, 0.13 - co2)   # a different (sour) gas, still alive
+        out = P["pseudocritical_point_Sutton"](g, comp, dry)
+        del other
+        return out
 
 
 def judge_sutton_hc(spec: Spec, pl: dict) -> list:
@@ -235,7 +241,7 @@ def stage_tables(ctx: core.Ctx, spec: Spec, n_comp: int, n_full: int, stride_ful
     rng = np.random.default_rng([ctx.seed, 19, 2])
     rows = 0
     worst = 0
-    comps = [drv.gas_values(rng, zero=(i == 1)) for i in range(n_comp)]
+    comps = [drv.gas_values(rng, zero=(i == 1), only={2: "N2", 3: "H2S", 4: "CO2"}.get(i % 6 if i >= 6 else i)) for i in range(n_comp)]
     full = (14000, 1)
     for mx in sorted(spec.grid, key=lambda m: m[0] / m[1]):
         todo = comps[:n_full] if mx == full else comps
@@ -316,7 +322,7 @@ def run(ctx: core.Ctx) -> None:
     spec = load_spec(ctx)
     if ctx.quick:
         stage_facade(ctx, spec, 40)
-        stage_tables(ctx, spec, n_comp=4, n_full=1, stride_full=7)
+        stage_tables(ctx, spec, n_comp=5, n_full=1, stride_full=7)
         stage_sutton(ctx, spec, 200)
     else:
         stage_facade(ctx, spec, 4000)
